@@ -294,9 +294,10 @@ struct PrologEpilogInfo {
       }
 
       if (n == 1) {
+        // The size reserved for the last (unpaired) register must match `FuncFrame::finalize()`.
         pairs[pair_count].ids[1] = uint8_t(Reg::kIdBad);
         pairs[pair_count].offset = uint16_t(offset);
-        offset += slot_size * 2;
+        offset = Support::align_up(offset + slot_size, frame.save_restore_alignment(group));
         pair_count++;
       }
 
